@@ -8,6 +8,7 @@ import (
 	"github.com/cosmos/cosmos-sdk/codec/address"
 	codectypes "github.com/cosmos/cosmos-sdk/codec/types"
 	sdk "github.com/cosmos/cosmos-sdk/types"
+	gethcommon "github.com/ethereum/go-ethereum/common"
 	xchain "github.com/palomachain/paloma/v2/internal/x-chain"
 	evmtypes "github.com/palomachain/paloma/v2/x/evm/types"
 	"github.com/palomachain/paloma/v2/x/skyway/types"
@@ -36,12 +37,7 @@ var (
 		sdk.ValAddress("validator-0000000003"),
 		sdk.ValAddress("validator-0000000004"),
 	}
-	vEthAddrs = []string{
-		"0xaaaaaaaaaaaaaaaaaaaaaaaaaaaaaaaaaaaaaaa1",
-		"0xaaaaaaaaaaaaaaaaaaaaaaaaaaaaaaaaaaaaaaa2",
-		"0xaaaaaaaaaaaaaaaaaaaaaaaaaaaaaaaaaaaaaaa3",
-		"0xaaaaaaaaaaaaaaaaaaaaaaaaaaaaaaaaaaaaaaa4",
-	}
+	vEthAddrs = models.EthAddrs
 )
 
 type VEVM struct {
@@ -82,7 +78,7 @@ func (e *VEVM) GetEthAddressByValidator(ctx context.Context, validator sdk.ValAd
 
 func (e *VEVM) GetValidatorAddressByEthAddress(ctx context.Context, ethAddr types.EthAddress, chainReferenceId string) (sdk.ValAddress, bool, error) {
 	for i, a := range vEthAddrs {
-		if ethAddr.GetAddress().Hex() == a {
+		if ethAddr.GetAddress() == gethcommon.HexToAddress(a) {
 			return vVals[i], true, nil
 		}
 	}
